@@ -18,7 +18,7 @@ RULE = ("Base MDP specs with discount rates 0.5 / 0.9 / 1.0 set as instance attr
         "taken from a second spec of the same shape; sub-goal options (sub-goal sets, initiation sets, pseudo-reward "
         "clipping, include_mdp_absorbing_states) planned with ValueIteration and compared with the reference optimum "
         "of the derived MDP; options = (policy spec, termination set, max_steps 2..30) run from any state under "
-        "owned random streams; semi-MDPs with 1-2 string-named options, 1-30 simulations, seeds, primitive actions. "
+        "owned random streams; semi-MDPs with 1-2 string-named options, 1-30 simulations, seeds, primitive actions, planning options built on a re-discounted copy of the task. "
         "Non-trivial: base discount < 1 with >=1 non-overridden component (augment / sub-goal), or an option taking "
         ">=2 steps; distinct by spec hash."
         ' Also: same-named options, a re-query after changing the simulation count, a planning option named like a primitive action.')
@@ -289,7 +289,9 @@ def smdp_cases(draw, tier="quick"):
             "seed": draw(st.one_of(st.sampled_from([0, 1]), st.integers(0, 10 ** 6))),
             "include_mdp_actions": draw(st.booleans()),
             # a planning option that happens to be called like one of the primitive actions ("left", 0, ...)
-            "subgoal_option_named_like_action": draw(st.one_of(st.none(), st.none(), st.integers(0, spec["m"] - 1)))}
+            "subgoal_option_named_like_action": draw(st.one_of(st.none(), st.none(), st.integers(0, spec["m"] - 1))),
+            # ... and that was planned on a re-discounted copy of the task (its own .mdp differs from the semi-MDP's base)
+            "subgoal_option_gamma": draw(st.sampled_from([None, 0.5, 0.9, 0.99]))}
 
 
 def prop_smdp(case, ctx):
@@ -308,7 +310,11 @@ def prop_smdp(case, ctx):
     if case.get("subgoal_option_named_like_action") is not None and goals:
         from msdm.core.semimdp.option import PlanToSubgoalOption
         from msdm.algorithms.valueiteration import ValueIteration
-        po = PlanToSubgoalOption(mdp=mdp, initial_states=[S[s] for s in sorted(closure(spec)) if not spec["absorbing"][s]],
+        plan_mdp = mdp
+        if case.get("subgoal_option_gamma") is not None and case["subgoal_option_gamma"] != spec["gamma"]:
+            plan_mdp = build_mdp(dict(spec, gamma=case["subgoal_option_gamma"], flavour="dproper"))[0]
+            ctx.event("subgoal_option_planned_on_rediscounted_copy")
+        po = PlanToSubgoalOption(mdp=plan_mdp, initial_states=[S[s] for s in sorted(closure(spec)) if not spec["absorbing"][s]],
                                  subgoals=[S[g] for g in goals], planner=ValueIteration(max_residual=1e-8),
                                  include_mdp_absorbing_states=True, name=A[case["subgoal_option_named_like_action"]], max_steps=500)
     smdp = SemiMarkovDecisionProcess(mdp=mdp, options=opts + ([po] if po is not None else []), n_option_simulations=case["n_sims"],
@@ -334,6 +340,25 @@ def prop_smdp(case, ctx):
             got = {k: p for k, p in nst.items() if p > 0}
             ctx.check(set(got) == set(emp) and all(abs(got[k] - emp[k]) <= 1e-9 for k in emp), "C15.smdp.outcome_distribution_is_empirical",
                       lambda: f"planning option named {po.name!r} at state {s}: (end state, duration) {got}, its own simulations {emp}")
+            # ... and with the reward component, discounted at the semi-MDP's base rate
+            try:
+                full = dict(smdp.next_state_transit_time_reward_dist(S[s], po).items())
+            except AlgorithmException:
+                continue
+            emp3 = []
+            for sim in sims:
+                steps = list(sim.steps)
+                rews = [x["reward"] for x in steps[:-1]]
+                emp3.append((steps[-1]["state"], len(rews), sum((gamma ** t) * r for t, r in enumerate(rews))))
+            close = lambda k, e: k[0] == e[0] and k[1] == e[1] and abs(k[2] - e[2]) <= 1e-9 * (1 + abs(e[2]))
+            for e in emp3:
+                mass = sum(p for k, p in full.items() if close(k, e))
+                cnt = sum(1 for e2 in emp3 if close(e2, e))
+                ctx.check(abs(mass - cnt / len(emp3)) <= 1e-9, "C15.smdp.outcome_distribution_is_empirical",
+                          lambda: f"planning option at state {s}: outcome {e} (reward discounted at the base rate {gamma}) has mass {mass} in {full}, "
+                                  f"{cnt}/{len(emp3)} of its own simulations")
+            ctx.check(all(any(close(k, e) for e in emp3) for k, p in full.items() if p > 1e-12), "C15.smdp.outcome_distribution_is_empirical",
+                      lambda: f"planning option at state {s}: outcomes {full} vs simulations {emp3}")
     for s in sorted(closure(spec)):
         # primitive actions
         for a in view.avail[s]:
